@@ -164,8 +164,16 @@ func runC20(c *kc.Ctx) {
 	// 2. the race-instrumented build of this harness
 	bin := filepath.Join(c.BinDir, "kcheck_race")
 	os.Remove(bin)
-	build := exec.Command("go", "build", "-race", "-tags", "verif", "-o", bin, "./cmd/kcheck")
+	args := []string{"build", "-race", "-tags", "verif", "-o", bin, "./cmd/kcheck"}
+	if mf := filepath.Join(c.BinDir, "go.mod"); kc.Repo() != "/repo" {
+		// seeded-change run (bin/check with VERIF_REPO): build against the tree under test
+		args = append([]string{"build", "-modfile=" + mf}, args[1:]...)
+	}
+	build := exec.Command("go", args...)
 	build.Dir = filepath.Join(kc.Root, "harness")
+	if h := os.Getenv("VERIF_HARNESS"); h != "" {
+		build.Dir = h
+	}
 	if out, err := build.CombinedOutput(); err != nil {
 		c.Unshown("correspondence:race-build", "go build -race of the harness failed: "+decTrunc(string(out)), nil)
 		return
